@@ -1262,7 +1262,8 @@ class _Walker:
             out = frozenset(t[4:] for t in at if t.startswith('cls:'))
             self.add_call(e, 'call', '__new__', [], external='object.__new__', args=e.args)
             return out or ANY
-        if meth == '__setattr__' and dc in FAMILY:
+        if meth == '__setattr__' and dc in FAMILY and not any(
+                m.next_in_mro(c, dc, meth) for c in ([self.ctx] if self.ctx else self.R.family(dc))):
             self.add_call(e, 'call', meth, [], external='object.__setattr__', args=e.args)
             return T('none')
         ctxs = [self.ctx] if self.ctx else (self.R.family(dc) if dc in FAMILY else [dc])
